@@ -38,6 +38,12 @@ def leaf_inputs(ctx, leaf, n, dia):
             ctx.assume(fp[-1].z != 48)
         neg = ctx.decide(ctx.fresh_bool("fneg"))
         return {"$symfloat": SymStr((["-"] if neg else []) + ip + ["."] + fp)}
+    if leaf.startswith("fexp:"):
+        # a float given by text of a fixed shape with symbolic digits (d) and signs (s), e.g. sd.dEs1d: magnitudes on
+        # both sides of the boundaries where repr() switches to exponent notation
+        return {"$symfloat": SymStr([ctx.fresh_char("d%d" % i, ((48, 57),)) if ch == "d" else
+                                     (ctx.fresh_char("s%d" % i, ((43, 43), (45, 45))) if ch == "s" else ch)
+                                     for i, ch in enumerate(leaf[5:])])}
     if leaf.startswith("shape:"):
         # a string leaf of a fixed shape: d = any ASCII digit, other characters literal
         return SymStr([ctx.fresh_char("d%d" % i, ((48, 57),)) if ch == "d" else ch for i, ch in enumerate(leaf[6:])])
@@ -120,8 +126,25 @@ SHAPES = {
 }
 
 
+# shapes too large to run in every configuration: used where named
+BIG_SHAPES = {
+    # more blocks than any small fixed limit: an object and 120 sibling groups, the leaf in the last one
+    "manyblocks": lambda c, x: c.M([("o", c.O([("k", 1)]))] + [("g%d" % i, c.G([("a", i)])) for i in range(119)] +
+                                   [("last", c.G([("a", x)])), ("z", 0)]),
+    # ... and 110 levels of nesting
+    "deepblocks": lambda c, x: c.M([("top", _nest(c, 110, x)), ("z", 0)]),
+}
+
+
+def _nest(c, depth, x):
+    inner = c.G([("a", x)])
+    for i in range(depth):
+        inner = (c.O if i % 2 else c.G)([("n%d" % i, inner), ("b", i)])
+    return inner
+
+
 def shape_module(L, shape, x, listmods=False):
-    return SHAPES[shape](C(L, listmods), x)
+    return (SHAPES.get(shape) or BIG_SHAPES[shape])(C(L, listmods), x)
 
 
 # --------------------------------------------------------------------------- spec-side normaliser
